@@ -173,11 +173,27 @@ var entryPoints = []entryPoint{
 		_, _, err := thrift.UnmarshalFastMsg(b, thrift.NewApplicationException(0, ""))
 		return 0, false, err
 	}},
-	{"ConvertUnknownFields", false, func(b []byte, t int8) bool { return ref.MaxDeclaredCount(b) <= maxMakeCount }, func(b []byte, t int8) (int, bool, error) {
+	{"ConvertUnknownFields", false, func(b []byte, t int8) bool {
+		if ref.MaxDeclaredCount(b) <= maxMakeCount {
+			return true
+		}
+		_, ok := parseFieldSeq(b) // every declared count is backed by data: allocation is proportional to the input
+		return ok
+	}, func(b []byte, t int8) (int, bool, error) {
 		_, err := uf.ConvertUnknownFields(b)
 		return 0, false, err
 	}},
 	{"ttheader.DecodeFromBytes", false, nil, func(b []byte, t int8) (int, bool, error) {
+		p, err := ttheader.DecodeFromBytes(context.Background(), b)
+		return p.HeaderLen, true, err
+	}},
+	{"ttheader.DecodeFromBytes (after a call that left unread bytes behind its frame)", false, nil, func(b []byte, t int8) (int, bool, error) {
+		if _, err := ttheader.DecodeFromBytes(context.Background(), twoFrames()); err != nil {
+			panic("harness: the two-frame buffer does not decode")
+		}
+		if len(b) == 0 {
+			b = nil
+		}
 		p, err := ttheader.DecodeFromBytes(context.Background(), b)
 		return p.HeaderLen, true, err
 	}},
@@ -415,7 +431,7 @@ func genEPCase(t *rapid.T) EPCase {
 var c03Flip int
 
 func TestC03_Random(t *testing.T) {
-	rec := evid.New("C03", "c03_random", "rapid: valid encodings (value trees, nesting chains, field sequences, Base-like structs, message envelopes, TTHeader-like frames) hit by one malformation operator (every cut point, structural byte -> boundary byte, size -> hostile constant, splice, bit flip, append) or uniform bytes, with any requested type byte -128..127; each case runs through 29 entry points x 3 placements (guard page after, guard page before, heap cap==len) behind recover with faults turned into panics; non-trivial = non-empty input on which the reference parsed >= 1 structural field or which is a strict mutation")
+	rec := evid.New("C03", "c03_random", "rapid: valid encodings (value trees, nesting chains, field sequences, Base-like structs, message envelopes, TTHeader-like frames) hit by one malformation operator (every cut point, structural byte -> boundary byte, size -> hostile constant, splice, bit flip, append) or uniform bytes, with any requested type byte -128..127; each case runs through 30 entry points x 3 placements (guard page after, guard page before, heap cap==len) behind recover with faults turned into panics; non-trivial = non-empty input on which the reference parsed >= 1 structural field or which is a strict mutation")
 	defer rec.Flush()
 	rec.Assume("the span-cache switch is flipped between (sequential) cases: every third case runs with it enabled")
 	defer thrift.SetSpanCache(false)
